@@ -217,3 +217,11 @@ Proof.
   exists out. split; [exact E|]. split; [exact L|]. intros k Hk. rewrite (H k Hk).
   symmetry. apply boxcar_is_convolution; [exact HN|reflexivity|reflexivity].
 Qed.
+
+(* ------------------------------------------------------------------ result / working dtypes *)
+(* the statements that make the precision of the results independent of the dtype of the inputs
+   (weights and get_stats data forced to float64; result matrices allocated as float64) are present *)
+Lemma gen_result_dtypes :
+  gen_wmom_weights_f64 = true /\ gen_wmedian_weights_f64 = true /\ gen_sigma_clip_weights_f64 = true
+  /\ gen_get_stats_data_f64 = true /\ gen_cov2cor_result_f64 = true /\ gen_cor2cov_result_f64 = true.
+Proof. repeat split; reflexivity. Qed.
